@@ -34,7 +34,7 @@ SrcDirEscapes(s) == s = ".."
 
 \* the sources that have a staging area when the receiver starts (the ones start-up recovery
 \* concerns; a gatekeeper for any other source name is created on demand and is ready at once)
-StartSrcs == {"s1", "s2", "zz"}
+StartSrcs == {"s1", "s2", "zz", "s1/x"}
 
 \* cf = [sources, keys]: the configured lists ( {} = not configured )
 Allowed(cf, src, key) ==
